@@ -68,6 +68,8 @@ def gen_cases(rng, n, profile):
                 "managed": rng.random() < 0.5,          # calls made inside `with Parallel(...)`
                 "warn_error": rng.random() < 0.3,       # close() under warnings-as-errors
                 "p_abort_race": 0.5,
+                "sized_inputs": rng.random() < 0.3,     # lazy inputs that know their length (n_tasks is known up front)
+                "base_fail": rng.random() < 0.2,        # failing tasks raise a BaseException that is not an Exception
                 # the backend refuses a batch at one of the caller's dispatches (submit raises)
                 "p_refuse": rng.choice([0.0, 0.0, 0.0, 0.15, 0.4]) if profile in ("c04", "c01", "c16") else 0.0}
         if i < 16:
@@ -504,7 +506,7 @@ def correspondence(ctx, profile, n_cases, extra_cases=()):
 
 def replay_options(case):
     """the options of a case that change what the implementation is asked to do (not how the schedule is drawn)"""
-    return {k: case[k] for k in ("managed", "warn_error", "fresh_object_per_call") if k in case}
+    return {k: case[k] for k in ("managed", "warn_error", "fresh_object_per_call", "sized_inputs", "base_fail") if k in case}
 
 
 def script_of(r):
